@@ -264,3 +264,54 @@ impl<T: Copy> Block for Framed<T> {
         Ok(BlockRet::WaitForStream(&self.src, 1))
     }
 }
+
+/// Pass-through that "cooks" before every move: with input waiting and room in
+/// the output it first answers `Pending` `arm` times (no stream activity can
+/// help it, it says; the runner has to come back by itself), then moves what
+/// it can.
+pub struct Lazy<T: Copy> {
+    src: ReadStream<T>,
+    dst: WriteStream<T>,
+    arm: usize,
+    left: usize,
+}
+
+impl<T: Copy> Lazy<T> {
+    pub fn new(src: ReadStream<T>, arm: usize) -> (Self, ReadStream<T>) {
+        let (dst, r) = rustradio::stream::new_stream();
+        (Self { src, dst, arm, left: arm }, r)
+    }
+}
+impl<T: Copy> BlockName for Lazy<T> {
+    fn block_name(&self) -> &str {
+        "Lazy"
+    }
+}
+impl<T: Copy> BlockEOF for Lazy<T> {
+    fn eof(&mut self) -> bool {
+        self.src.eof()
+    }
+}
+impl<T: Copy> Block for Lazy<T> {
+    fn work(&mut self) -> Result<BlockRet> {
+        let (i, tags) = self.src.read_buf()?;
+        if i.is_empty() {
+            return Ok(BlockRet::WaitForStream(&self.src, 1));
+        }
+        let mut o = self.dst.write_buf()?;
+        if o.is_empty() {
+            return Ok(BlockRet::WaitForStream(&self.dst, 1));
+        }
+        if self.left > 0 {
+            self.left -= 1;
+            return Ok(BlockRet::Pending);
+        }
+        self.left = self.arm;
+        let n = i.len().min(o.len());
+        o.slice()[..n].copy_from_slice(&i.slice()[..n]);
+        let tags: Vec<_> = tags.into_iter().filter(|t| t.pos() < n).collect();
+        o.produce(n, &tags);
+        i.consume(n);
+        Ok(BlockRet::Again)
+    }
+}
